@@ -7,8 +7,10 @@ CONFIG = {
     'rule': 'cases = (type, value) pairs over 71 concrete C++ types (62 in the swap build; depth <= 3: arithmetic 1/2/4/8 '
             'bytes incl. float/double bit patterns, string, pair, vector/list/deque, set/multiset/unordered_set, '
             'map/multimap/unordered_map, classes with Save/Load, POD structs) x both byte-order builds, each with the '
-            'ops enc (bytes vs reference layout), rt (round trip + consumption with a random tail), truncall (every '
+            'ops enc (bytes vs reference layout), rt (round trip + consumption with a random tail), rtd x3 (the same read '
+            'into an object that already holds another / a smaller / the same value), truncall (every '
             'truncation point); seq = 2-5 values back to back; dec-elems / dec-count = streams that are not the image '
+            '(each read into a fresh and into a pre-populated object: dec, decd) '
             'of a container; random + boundary contents (empty containers, NUL / 0xff bytes, extreme integers, NaN '
             'payloads); a case is non-trivial when it has at least one op; distinct = distinct hash of the op list',
     'assumptions': ['little-endian x86-64 host (a big-endian host is represented by the swap build on this host and '
